@@ -31,6 +31,21 @@ pub struct VolCfg {
     /// Some: the empty volume is built by imggen::mkfs with this geometry instead of the library's formatter
     #[serde(default)]
     pub gen: Option<GenGeom>,
+    /// large sparse volumes (C20): FS-info hint placement and pre-filled table windows
+    #[serde(default)]
+    pub large: Option<LargeCfg>,
+}
+
+#[derive(Clone, Debug, Serialize, Deserialize, PartialEq, Eq, Hash)]
+pub struct LargeCfg {
+    /// FS-info next-free hint = last cluster + hint_rel (None: unknown)
+    pub hint_rel: Option<i32>,
+    /// this many trailing clusters are pre-marked BAD ...
+    pub tail_window: u32,
+    /// ... except those at these distances from the last cluster (0 = the last cluster)
+    pub tail_free: Vec<u32>,
+    /// clusters 3..3+head_used are pre-marked BAD, so an allocation that wraps lands behind them
+    pub head_used: u32,
 }
 
 pub const CANARY: u8 = 0xC7;
@@ -97,6 +112,7 @@ impl VolCfg {
             status0: 0,
             access_date: false,
             gen: None,
+            large: None,
         }
     }
     /// generated-geometry variants (what the library's formatter cannot produce)
@@ -167,10 +183,11 @@ fn build_base(cfg: &VolCfg) -> Result<Store, String> {
     let vol_bytes = cfg.total_sectors as u64 * cfg.bps as u64;
     let dev_bytes = vol_bytes + cfg.pad_sectors as u64 * cfg.bps as u64;
     let mut store = if let Some(gg) = &cfg.gen {
-        imggen::mkfs(&imggen::MkfsParams { fat: cfg.fat, bps: cfg.bps, spc: cfg.spc, nfats: cfg.fats, root_entries: cfg.root_entries, total_sectors: cfg.total_sectors, pad_sectors: cfg.pad_sectors, gg: gg.clone() })
+        imggen::mkfs(&imggen::MkfsParams { fat: cfg.fat, bps: cfg.bps, spc: cfg.spc, nfats: cfg.fats, root_entries: cfg.root_entries, total_sectors: cfg.total_sectors, pad_sectors: cfg.pad_sectors, gg: gg.clone(), zero_fill: cfg.large.is_some() })
             .map_err(|e| format!("imggen::mkfs failed for {:?}: {}", cfg, e))?
     } else {
-        let store = if dev_bytes <= (4 << 20) { Store::dense(dev_bytes as usize, GARBAGE) } else { Store::sparse(dev_bytes, GARBAGE) };
+        let fill = if cfg.large.is_some() { 0 } else { GARBAGE };
+        let store = if dev_bytes <= (4 << 20) { Store::dense(dev_bytes as usize, fill) } else { Store::sparse(dev_bytes, fill) };
         let mut dev = MemDev::new(store);
         let mut opts = fatfs::FormatVolumeOptions::new()
             .bytes_per_sector(cfg.bps)
@@ -204,6 +221,27 @@ fn build_base(cfg: &VolCfg) -> Result<Store, String> {
                 set_fat_all(&mut store, &g, c, bad);
             }
             c += 1;
+        }
+    }
+    if let Some(l) = &cfg.large {
+        let maxc = g.max_cluster();
+        let bad = g.bad_mark();
+        for k in 0..l.tail_window.min(maxc - 3) {
+            if !l.tail_free.contains(&k) && !(g.width == 32 && maxc - k == g.raw.root_clus) {
+                set_fat_all(&mut store, &g, maxc - k, bad);
+            }
+        }
+        for c in 3..(3 + l.head_used).min(maxc) {
+            if !(g.width == 32 && c == g.raw.root_clus) {
+                set_fat_all(&mut store, &g, c, bad);
+            }
+        }
+        if g.width == 32 {
+            let hint: u32 = match l.hint_rel {
+                None => 0xFFFF_FFFF,
+                Some(r) => (maxc as i64 + r as i64) as u32,
+            };
+            store.write_at(g.fsinfo_off() + 492, &hint.to_le_bytes());
         }
     }
     if g.width == 32 {
